@@ -15,6 +15,10 @@ def _compare(rec):
     i, m = rec["impl"], rec["model"]
     if i.startswith("skip") or m.startswith("skip"):
         return True
+    if rec["case"].startswith("tj "):
+        # eq= is the library's own == between x and from_json(model JSON): it ignores remembered encodings, the model's
+        # wire values do not; the judge reads it, the exact comparison is on the JSON tokens and the bytes
+        i = i.replace(" eq=1", "").replace(" eq=0", "")
     return i == m
 
 
